@@ -125,15 +125,19 @@ def addLink (store : List Rule) (l : Rule) : List Rule := if store.contains l th
 def delLink (store : List Rule) (l : Rule) : List Rule := store.erase l
 
 /-- `Assertion.build_incremental_role_links(rm, op, rules)`: every rule is truncated to `count` fields; a shorter
-    rule raises (after the links of the rules before it were processed) -/
-def incLinks (count : Nat) (add : Bool) : List Rule → List Rule → Except EErr (List Rule)
+    rule raises (after the links of the rules before it were processed).  Removal (repaired, F28): rules that differ
+    only beyond the role definition share one link, which goes with the last of them - `pol` = the rules of the
+    section after the removal. -/
+def incLinks (count : Nat) (add : Bool) (pol : List Rule) : List Rule → List Rule → Except EErr (List Rule)
   | store, [] => .ok store
   | store, r :: rs =>
     if r.length < count then .error .shortGroupingRule
-    else incLinks count add (if add then addLink store (r.take count) else delLink store (r.take count)) rs
+    else incLinks count add pol
+      (if add then addLink store (r.take count)
+       else if pol.any (fun o => o.take count == r.take count) then store else delLink store (r.take count)) rs
 
 /-- `Assertion.build_role_links(rm)` after `rm.clear()` -/
-def buildLinks (count : Nat) (rules : List Rule) : Except EErr (List Rule) := incLinks count true [] rules
+def buildLinks (count : Nat) (rules : List Rule) : Except EErr (List Rule) := incLinks count true [] [] rules
 
 /-- `CoreEnforcer.build_role_links`: clear every manager, then rebuild each from its section -/
 def rebuildAll (cfg : Cfg) (pol : Pol) : Except EErr Pol :=
@@ -197,7 +201,7 @@ inductive Op
 /-- link maintenance after a successful grouping change (`auto_build_role_links and <success>`) -/
 def relink (cfg : Cfg) (s : St) (sec : Sec) (add : Bool) (rules : List Rule) : Except EErr St :=
   if sec = .p || !s.autoBuild then .ok s
-  else match incLinks (cfg.count sec) add (s.links.get sec) rules with
+  else match incLinks (cfg.count sec) add (s.pol.get sec) (s.links.get sec) rules with
     | .error e => .error e
     | .ok l => .ok { s with links := s.links.set sec l }
 
